@@ -417,7 +417,8 @@ struct Harness {
         else q = make_point(dim, op.arg(1) % 6, r.next(), s);
         query(s, q, after);
       } else if (op.name == "wrongq") {
-        wrong_queries.push_back({a, {op.arg(1), op.uarg(2)}});
+        // thinned to 1 in 4: the finding is keyed and a listed key excludes the (already fully checked) case
+        if (op.uarg(2) % 4 == 0) wrong_queries.push_back({a, {op.arg(1), op.uarg(2)}});
         continue;
       } else continue;
       for (int t : touched) {
